@@ -30,9 +30,17 @@
      ot.ext_x         (Li [At k8; choices(extra); Li chi])              -> Bs            (the message field X)
      ot.ext_t         (Li [Li rows; Li chi])                            -> Bs 32         (sum rows_i * chi_i)
      ot.ext_check     (Li [Bs delta; Li Qrows; Li chi; Bs X; Bs T32])   -> bool          (sender's check)
-     ot.masked_pad    (Li [Li [At len_j ...]; At c; Bs pad])            -> res Bs        (AdditiveOT.Round2 mask loop)
+     ot.masked_pad    (Li [At c; Bs pad]) | (Li [lens; At c; Bs pad])   -> res Bs        (AdditiveOT.Round2 mask loop,
+                                                                                         repaired code: whole pad, always ok;
+                                                                                         [lens] is accepted and ignored)
+     ot.masked_pad_v0 (Li [Li [At len_j ...]; At c; Bs pad])            -> res Bs        (mask loop before the repair)
+     ot.additive_recv_class (Li [At q; At nbytes; choices; Li [Li [Bs p0; Bs p1] ...]]) -> res (At 0)
+                      outcome of AdditiveOTReceiver.Round2 on the message: wrong number of pads or an
+                      undecodable masked pad = error (never a panic)
      ot.additive_check (Li [At q; At alpha; choices; Li send; Li recv]) -> bool          (one component)
      ot.mult_recv_check (Li [At q; At chi0; At chi1; choices; Li result; Li rcheck; At ucheck]) -> res (At 0)
+                      (repaired code: len(rcheck) != len(result) is an error)
+     ot.mult_recv_check_v0 (same arguments)                             -> res (At 0)   (before the repair)
      ot.mult_check    (Li [At q; At alpha; At beta; At share_s; At share_r]) -> bool *)
 From Coq Require Import String.
 From Coq Require Import List NArith ZArith Bool.
@@ -169,9 +177,25 @@ Definition op_ot_ext_check (arg : sx) : option sx :=
 
 Definition op_ot_masked_pad (arg : sx) : option sx :=
   match arg with
+  | Li [c; Bs pad] => do c <- as_bool c; Some (sx_res Bs (ROk (masked_pad c pad)))
+  | Li [Li _; c; Bs pad] => do c <- as_bool c; Some (sx_res Bs (ROk (masked_pad c pad)))
+  | _ => None end.
+
+Definition op_ot_masked_pad_v0 (arg : sx) : option sx :=
+  match arg with
   | Li [lens; c; Bs pad] =>
       do lens <- as_list_of as_nat lens; do c <- as_bool c;
-      Some (sx_res Bs (masked_pad lens c pad))
+      Some (sx_res Bs (masked_pad_v0 lens c pad))
+  | _ => None end.
+
+Definition as_bytes_pair (s : sx) : option (bytes * bytes) :=
+  match s with Li [Bs a; Bs b] => Some (a, b) | _ => None end.
+
+Definition op_ot_additive_recv_class (arg : sx) : option sx :=
+  match arg with
+  | Li [At q; nb; ch; CP] =>
+      do nb <- as_nat nb; do ch <- as_choices ch; do CP <- as_list_of as_bytes_pair CP;
+      Some (sx_res (fun _ : unit => At 0%Z) (if additive_msg_ok q nb ch CP then ROk tt else RErr))
   | _ => None end.
 
 Definition op_ot_additive_check (arg : sx) : option sx :=
@@ -182,6 +206,13 @@ Definition op_ot_additive_check (arg : sx) : option sx :=
   | _ => None end.
 
 Definition op_ot_mult_recv_check (arg : sx) : option sx :=
+  match arg with
+  | Li [At q; At chi0; At chi1; ch; result; rcheck; At ucheck] =>
+      do ch <- as_choices ch; do result <- as_list_of as_pair result; do rcheck <- as_list_of as_Z rcheck;
+      Some (sx_res (fun _ : unit => At 0%Z) (mult_recv_check q chi0 chi1 ch result rcheck ucheck))
+  | _ => None end.
+
+Definition op_ot_mult_recv_check_v0 (arg : sx) : option sx :=
   match arg with
   | Li [At q; At chi0; At chi1; ch; result; rcheck; At ucheck] =>
       do ch <- as_choices ch; do result <- as_list_of as_pair result; do rcheck <- as_list_of as_Z rcheck;
@@ -208,6 +239,9 @@ Definition ot_ops : list (bytes * (sx -> option sx)) :=
     (str "ot.ext_t"%string, op_ot_ext_t);
     (str "ot.ext_check"%string, op_ot_ext_check);
     (str "ot.masked_pad"%string, op_ot_masked_pad);
+    (str "ot.masked_pad_v0"%string, op_ot_masked_pad_v0);
+    (str "ot.additive_recv_class"%string, op_ot_additive_recv_class);
     (str "ot.additive_check"%string, op_ot_additive_check);
     (str "ot.mult_recv_check"%string, op_ot_mult_recv_check);
+    (str "ot.mult_recv_check_v0"%string, op_ot_mult_recv_check_v0);
     (str "ot.mult_check"%string, op_ot_mult_check) ].
